@@ -398,6 +398,41 @@ theorem met_zero {n : Nat} {sh : List Nat} {z : Nat} (h : met (n :: sh) (0, z) =
 
 end InfernoVerif.Shaped
 
+namespace InfernoVerif.Shaped
+open InfernoVerif.Ring (Err prod slice)
+
+theorem met_iff (sh : List Nat) (d : Int) (z : Nat) :
+    met sh (d, z) = true ↔ ∃ i, pyIdx sh.length d = some i ∧ sh[i]? = some z := by
+  unfold met
+  cases pyIdx sh.length d with
+  | none => simp
+  | some i => simp
+
+/-- if every key indexes an existing dimension, the non-strict dimensionality demand is met -/
+theorem inrange_bounds {c : Cons} {nd : Nat}
+    (h : ∀ d z, (d, z) ∈ c → ∃ i, pyIdx nd d = some i) : upper c ≤ nd ∧ lower c ≤ nd := by
+  induction c with
+  | nil => simp [upper, lower]
+  | cons p c ih =>
+    obtain ⟨d, z⟩ := p
+    obtain ⟨ih1, ih2⟩ := ih (fun d' z' hm => h d' z' (List.mem_cons_of_mem _ hm))
+    obtain ⟨i, hi⟩ := h d z (List.mem_cons_self ..)
+    rw [upper_cons, lower_cons]
+    simp only
+    unfold pyIdx at hi
+    by_cases hd : 0 ≤ d
+    · rw [if_pos hd] at hi
+      split at hi
+      · constructor <;> omega
+      · cases hi
+    · rw [if_neg hd] at hi
+      split at hi
+      · constructor <;> omega
+      · cases hi
+
+
+end InfernoVerif.Shaped
+
 namespace InfernoVerif.Record
 open InfernoVerif.Ring InfernoVerif.Shaped
 variable {α : Type}
